@@ -91,6 +91,20 @@ Theorem C06_size_append_exact_failing_rolls :
 Proof. exact size_append_exact_x. Qed.
 Print Assumptions C06_size_append_exact_failing_rolls.
 
+(* A roller that ROTATES and then reports failure (histories of C06_len_is_disk_size_failing_rolls contain such
+   appends too): size shown = size on disk, rotation requested iff the limit is exceeded, Err exactly then, and the
+   appender is left exactly as after a successful rotation *)
+Theorem C06_roller_fails_after_rotating :
+  forall limit rl s chunks,
+    let c := {| trig := TSize limit; roll_by := rl |} in
+    xreach c s ->
+    let sz := (disk_len (files s) + blen (concat chunks))%N in
+    snd (fst (append_op_fail_after c chunks s)) = [EWrote (concat chunks); EConsult sz sz (limit <? sz)%N]
+    /\ snd (append_op_fail_after c chunks s) = (limit <? sz)%N
+    /\ fst (fst (append_op_fail_after c chunks s)) = fst (append_op c chunks s).
+Proof. exact size_append_fail_after_x. Qed.
+Print Assumptions C06_roller_fails_after_rotating.
+
 (* `reach` is exactly "state after some history over some initial directory". *)
 Theorem C06_reach_is_history :
   forall c s, reach c s <-> exists pre ops, s = fst (run_ops c ops (raw pre)).
